@@ -390,7 +390,7 @@ func init() {
 		Real:        []string{"p2pserver/message/types WriteMessage/ReadMessage/MakeEmptyMessage and all 16 message types", "p2pserver/common.Checksum", "core/types decoders reached through tx/block/headers frames", "ConsensusPayload (de)serialisation"},
 		Stub:        []string{"TCP link (simulated reader: chunking, stalls, injected I/O error, early EOF)", "peer / message router (frames are decoded, not dispatched)"},
 		Assumptions: []string{"checksum collisions (2^-32 per corrupted payload) are decided by the model reader, not assumed away", "allocation guard: ReadMessage may allocate at most the payload limit (30 MiB) + 1 MiB before it verifies the checksum; the figure comes from the task statement, the property text only promises rejection", "counts in (2^16, 2^46) reaching an unguarded make() in the transaction decoder are not executed (process abort); counted as dangerous_count_not_executed"},
-		QuickRuns:   1600, ThoroughRuns: 100000, QuickCap: 60, ThoroughCap: 800,
+		QuickRuns:   1200, ThoroughRuns: 100000, QuickCap: 60, ThoroughCap: 800,
 		RequiredProbes: []string{"kind_version", "kind_verack", "kind_getaddr", "kind_addr", "kind_ping", "kind_pong", "kind_getheaders", "kind_headers", "kind_inv", "kind_getdata", "kind_block", "kind_tx", "kind_consensus", "kind_getblocks", "kind_notfound", "kind_disconnect", "cmd_corrupted_to_other_known_command", "cmd_padding_corrupted", "length_consumes_next_frame", "length_above_limit_rejected", "checksum_field_corrupted", "short_read_inside_header", "spliced_second_frame_ok", "payload_count_huge"},
 		Generate:       genC05,
 		Execute:        execC05,
@@ -772,7 +772,7 @@ func execC05(run *kernel.Run) {
 			}
 			// a frame that really carries limit+1 bytes under a valid checksum (ping ignores what follows
 			// its 8 bytes): only the size limit can reject it. Costly (30 MiB hashed twice), hence rare.
-			if rng.Intn(8) == 0 {
+			if rng.Intn(24) == 0 {
 				bigp := make([]byte, maxPayloadLen+1)
 				copy(bigp, rng.Bytes(64))
 				d := refFrame(c.magic, "ping", bigp)
@@ -781,7 +781,7 @@ func execC05(run *kernel.Run) {
 				run.Probe("real_payload_above_limit_rejected")
 			}
 			// exactly at the limit with a short stream: allowed to allocate, must fail on the short payload
-			if rng.Intn(6) == 0 {
+			if rng.Intn(12) == 0 {
 				d := append(refFrameHdr(c.magic, mc.cmd, maxPayloadLen, mc.payload), mc.payload...)
 				fire("length_at_limit_short_stream")
 				c.judge(mc.cmd+" length at limit", d, rdr(d, -1, 850), mc, true)
@@ -1009,6 +1009,29 @@ func (c *c05ctx) adversarial(mc *msgCase, rng *kernel.RNG, rdr func([]byte, int,
 				}
 				if !try(fmt.Sprintf("tx nsigs=%#x", v), w.b) {
 					return
+				}
+			}
+		}
+	}
+	if mc.cmd == "block" {
+		// the signature count of the first transaction carried by the block
+		r := &refR{b: p}
+		if _, ok := walkHdr(r); ok {
+			if cnt := r.u32(); !r.bad && cnt > 0 {
+				start := r.off
+				if uend, _, _, ok := walkTx(&refR{b: p[start:]}); ok {
+					for _, v := range safeCorruptCounts {
+						w := &refW{}
+						w.raw(p[:start+uend])
+						w.varuint(v)
+						fire("payload_count_corrupted")
+						if v >= dangerHi {
+							run.Probe("payload_count_huge")
+						}
+						if !try(fmt.Sprintf("block tx0 nsigs=%#x", v), w.b) {
+							return
+						}
+					}
 				}
 			}
 		}
